@@ -56,13 +56,40 @@ func checkRunprogWiring(c *Check) {
 		c.Undecided(rule, "cmd/runprog:flags", p.Pos(start.Pos()), "the -unsafe, -runner or -allow-proc flag variable was not found")
 		return
 	}
+	// the values that hold a flag inside start(): loads of the flag variable, and parameters of start() that receive
+	// such a load at every call site
+	flagParam := func(g *ssa.Global) *ssa.Parameter {
+		for i, pr := range start.Params {
+			sites := staticCallSites(start)
+			all := len(sites) > 0
+			for _, s := range sites {
+				u, ok := s.Common().Args[i].(*ssa.UnOp)
+				if !ok || u.X != ssa.Value(g) {
+					all = false
+				}
+			}
+			if all {
+				return pr
+			}
+		}
+		return nil
+	}
+	isFlag := func(v ssa.Value, g *ssa.Global) bool {
+		if u, ok := v.(*ssa.UnOp); ok && u.X == ssa.Value(g) {
+			return true
+		}
+		if pr, ok := v.(*ssa.Parameter); ok && pr == flagParam(g) && pr != nil {
+			return true
+		}
+		return false
+	}
 	// runner kinds = the string constants the runner flag is compared with in start()
 	kinds := map[string]bool{}
 	for _, b := range start.Blocks {
 		for _, in := range b.Instrs {
 			if bo, ok := in.(*ssa.BinOp); ok {
 				for _, pair := range [][2]ssa.Value{{bo.X, bo.Y}, {bo.Y, bo.X}} {
-					if u, ok := pair[0].(*ssa.UnOp); ok && u.X == gRunner {
+					if isFlag(pair[0], gRunner) {
 						if s, ok := constString(pair[1]); ok {
 							kinds[s] = true
 						}
@@ -82,13 +109,11 @@ func checkRunprogWiring(c *Check) {
 		var where string
 		w := &walker{fn: start, Inline: -1, MemoStates: true}
 		w.Seed = func(w *walker, st *wstate, v ssa.Value) *absVal {
-			if u, ok := v.(*ssa.UnOp); ok {
-				switch u.X {
-				case gUnsafe:
-					return avBool(false)
-				case gRunner:
-					return avC(constant.MakeString(kind))
-				}
+			if isFlag(v, gUnsafe) {
+				return avBool(false)
+			}
+			if isFlag(v, gRunner) {
+				return avC(constant.MakeString(kind))
 			}
 			if ex, ok := v.(*ssa.Extract); ok && ex.Index == 0 {
 				if call, ok := ex.Tuple.(*ssa.Call); ok {
@@ -119,6 +144,12 @@ func checkRunprogWiring(c *Check) {
 			stores[out] = true
 		}
 		w.Run()
+		if len(stores) == 0 {
+			// the runner is built in a helper of the package: walk again, following helpers (slower)
+			w2 := &walker{fn: start, MemoStates: true, Seed: w.Seed, OnInstr: w.OnInstr}
+			w2.Run()
+			w.Truncated = w2.Truncated
+		}
 		var outs []string
 		for o := range stores {
 			outs = append(outs, o)
